@@ -20,8 +20,8 @@ Checks == {Cfg.checks[i] : i \in DOMAIN Cfg.checks}
 Devs == {Cfg.devs[i] : i \in DOMAIN Cfg.devs}
 On(g) == g \in Checks
 
-VARIABLES l, cnt, curop, taint, used
-tvars == <<l, cnt, curop, taint, used>>
+VARIABLES l, cnt, curop, taint, rejoined, used
+tvars == <<l, cnt, curop, taint, rejoined, used>>
 E == Rec[l]
 
 Zero == [forward |-> 0, copy |-> 0, ack |-> 0, fanout |-> 0]
@@ -74,9 +74,9 @@ Budget(S, c) ==
 
 NoOp == [op |-> "-", d |-> "", k |-> "", v |-> "", ver |-> -1, n |-> 0, at_secondary |-> FALSE]
 
-TraceInit == l = 1 /\ cnt = Zero /\ curop = NoOp /\ taint = {} /\ used = {} /\ TLCSet(1, 0)
+TraceInit == l = 1 /\ cnt = Zero /\ curop = NoOp /\ taint = {} /\ rejoined = {} /\ used = {} /\ TLCSet(1, 0)
 
-Reset == /\ E.ev = "reset" /\ cnt' = Zero /\ curop' = NoOp /\ taint' = {} /\ used' = {}
+Reset == /\ E.ev = "reset" /\ cnt' = Zero /\ curop' = NoOp /\ taint' = {} /\ rejoined' = {} /\ used' = {}
          /\ ((used # {}) => PrintT(<<"USED", Rec[l-1].run, used>>))
 
 Formed ==
@@ -84,19 +84,19 @@ Formed ==
   /\ E.quiet
   /\ (On("ELECT") => ElectionOutcome(E.state)) = TRUE
   /\ (On("CONV") => Converged(E.state)) = TRUE
-  /\ cnt' = Zero /\ UNCHANGED <<curop, taint, used>>
+  /\ cnt' = Zero /\ UNCHANGED <<curop, taint, rejoined, used>>
 
 Client ==
   /\ E.ev = "client"
   /\ curop' = E.op
-  /\ UNCHANGED <<cnt, taint, used>>
+  /\ UNCHANGED <<cnt, taint, rejoined, used>>
 
 Msg ==
   /\ E.ev = "msg"
   /\ cnt' = [cnt EXCEPT ![IF E.kind \in {"forward", "copy", "ack"} THEN E.kind ELSE "fanout"] =
                  IF E.kind \in {"forward", "copy", "ack"} THEN @ + 1
                  ELSE IF E.kind = "copy_by_secondary" THEN @ + 1 ELSE @]
-  /\ UNCHANGED <<curop, taint, used>>
+  /\ UNCHANGED <<curop, taint, rejoined, used>>
 
 QuiesceOK ==
   /\ E.ev \in {"quiesce", "end"}
@@ -105,7 +105,38 @@ QuiesceOK ==
   /\ (On("CONV") => Converged(E.state)) = TRUE
   /\ (On("PEND") => NothingPending(E.state)) = TRUE
   /\ (On("ELECT") => ElectionOutcome(E.state)) = TRUE
-  /\ cnt' = Zero /\ UNCHANGED <<curop, taint, used>>
+  /\ cnt' = Zero /\ UNCHANGED <<curop, taint, rejoined, used>>
+
+Restarted ==
+  /\ E.ev = "restarted"
+  /\ rejoined' = rejoined \cup {E.node}
+  /\ UNCHANGED <<cnt, curop, taint, used>>
+
+(* ---------------- known findings (C05) ---------------- *)
+ConvergedExcept(S, X) ==
+  \A p \in Primaries(S) : \A n \in Alive(S) \ X : SameDataBut(S[n].data, S[p].data, taint)
+
+(* the catch-up a rejoining node receives does not reproduce the primary's data (lines   *)
+(* without the version field, strategy dropped from create-db, tombstones sent as values, *)
+(* stale keys never deleted, writes racing with the catch-up): the rejoined node may     *)
+(* differ from the primary; every other node must still equal it                         *)
+Dev_ResyncDiverges ==
+  /\ "Dev_ResyncDiverges" \in Devs
+  /\ E.ev \in {"quiesce", "end"} /\ E.quiet /\ On("CONV")
+  /\ rejoined # {}
+  /\ Converged(E.state) = FALSE
+  /\ ConvergedExcept(E.state, rejoined) = TRUE
+  /\ cnt' = Zero /\ UNCHANGED <<curop, taint, rejoined>>
+  /\ used' = used \cup {"Dev_ResyncDiverges"}
+
+(* a rejoining node is told about itself, dials itself and asks itself for the operations *)
+(* since its last one; building that list from its own log panics in the supervisor loop  *)
+(* when the log mentions a database that was not restored from disk                       *)
+Dev_SelfSyncPanic ==
+  /\ "Dev_SelfSyncPanic" \in Devs
+  /\ E.ev = "loop_panic" /\ E.loop = "sup" /\ E.self_sync /\ E.node \in rejoined
+  /\ UNCHANGED <<cnt, curop, taint, rejoined>>
+  /\ used' = used \cup {"Dev_SelfSyncPanic"}
 
 (* ---------------- known findings (C04) ---------------- *)
 OpKey == <<curop.d, curop.k>>
@@ -119,7 +150,7 @@ Dev_RemoveOnSecondaryLocalOnly ==
   /\ taint' = taint \cup {OpKey}
   /\ (\A p \in Primaries(E.state) : \A n \in Alive(E.state) : SameDataBut(E.state[n].data, E.state[p].data, taint')) = TRUE
   /\ (On("BUDGET") => Budget(E.state, cnt)) = TRUE
-  /\ cnt' = Zero /\ UNCHANGED curop
+  /\ cnt' = Zero /\ UNCHANGED <<curop, rejoined>>
   /\ used' = used \cup {"Dev_RemoveOnSecondaryLocalOnly"}
 
 (* a plain / versioned write issued on a secondary is applied there, forwarded, and    *)
@@ -133,7 +164,7 @@ Dev_SecondaryWriteAppliedLocally ==
   /\ taint' = taint \cup {OpKey}
   /\ (\A p \in Primaries(E.state) : \A n \in Alive(E.state) : SameDataBut(E.state[n].data, E.state[p].data, taint')) = TRUE
   /\ (On("BUDGET") => Budget(E.state, cnt)) = TRUE
-  /\ cnt' = Zero /\ UNCHANGED curop
+  /\ cnt' = Zero /\ UNCHANGED <<curop, rejoined>>
   /\ used' = used \cup {"Dev_SecondaryWriteAppliedLocally"}
 
 (* ---------------- known findings (C07) ---------------- *)
@@ -142,7 +173,7 @@ ElectStep(name, cond) ==
   /\ E.ev \in {"formed", "quiesce", "end"} /\ E.quiet /\ On("ELECT")
   /\ ElectionOutcome(E.state) = FALSE
   /\ cond = TRUE
-  /\ cnt' = Zero /\ UNCHANGED <<curop, taint>>
+  /\ cnt' = Zero /\ UNCHANGED <<curop, taint, rejoined>>
   /\ used' = used \cup {name}
 
 (* one primary, the oldest, every other node secondary -- but some node's member map    *)
@@ -166,13 +197,14 @@ Dev_ResolvePingPong ==
   /\ "Dev_ResolvePingPong" \in Devs
   /\ E.ev \in {"quiesce", "end"} /\ ~E.quiet
   /\ curop.op = "resolve"
-  /\ cnt' = Zero /\ UNCHANGED <<curop, taint>>
+  /\ cnt' = Zero /\ UNCHANGED <<curop, taint, rejoined>>
   /\ used' = used \cup {"Dev_ResolvePingPong"}
 
 TraceNext == l <= Len(Rec) /\ l' = l + 1 /\
              (Reset \/ Formed \/ Client \/ Msg \/ QuiesceOK \/ Dev_RemoveOnSecondaryLocalOnly
               \/ Dev_SecondaryWriteAppliedLocally \/ Dev_ResolvePingPong
-              \/ Dev_ElectionStaleView \/ Dev_ElectionNoPrimary \/ Dev_ElectionWrongPrimary)
+              \/ Dev_ElectionStaleView \/ Dev_ElectionNoPrimary \/ Dev_ElectionWrongPrimary
+              \/ Restarted \/ Dev_ResyncDiverges \/ Dev_SelfSyncPanic)
 TraceSpec == TraceInit /\ [][TraceNext]_tvars
 
 Progress ==
